@@ -49,7 +49,9 @@ Record robj := mkRO {
 
 Record rstate := mkRS { rs_threads : list rthread; rs_objs : list robj; rs_decls : list decl; rs_weak : bool;
                         rs_atomic : bool;            (* stop_exploring .. explore regions run without interference *)
-                        rs_region : option nat }.    (* the thread inside such a region *)
+                        rs_region : option nat;      (* the thread inside such a region *)
+                        rs_budget : option nat;      (* preemptions still allowed (None = any number) *)
+                        rs_last : option nat }.      (* the thread that made the last step *)
 
 Definition robj_of_decl (d : decl) : robj :=
   match d with
@@ -63,7 +65,7 @@ Definition robj_of_decl (d : decl) : robj :=
 Definition rinit (weak : bool) (p : prog) : rstate :=
   mkRS (mapi (fun b code => mkRT (if Nat.eqb b 0 then RReady else RNotStarted) code 0 false [] [] false false None [] [] false)
              (p_bodies p))
-       (map robj_of_decl (p_decls p)) (p_decls p) weak false None.
+       (map robj_of_decl (p_decls p)) (p_decls p) weak false None None None.
 
 Definition ro_default : robj := mkRO 0%N None [] [] false false false [] false 0 [] false [].
 Definition rt_default : rthread := mkRT RDone [] 0 false [] [] false false None [] [] false.
@@ -71,11 +73,13 @@ Definition robj_get (s : rstate) (i : nat) : robj := nth i (rs_objs s) ro_defaul
 Definition rth_get (s : rstate) (i : nat) : rthread := nth i (rs_threads s) rt_default.
 
 Definition set_obj (s : rstate) (i : nat) (o : robj) : rstate :=
-  mkRS (rs_threads s) (list_set (rs_objs s) i o) (rs_decls s) (rs_weak s) (rs_atomic s) (rs_region s).
+  mkRS (rs_threads s) (list_set (rs_objs s) i o) (rs_decls s) (rs_weak s) (rs_atomic s) (rs_region s) (rs_budget s) (rs_last s).
 Definition set_th (s : rstate) (i : nat) (t : rthread) : rstate :=
-  mkRS (list_set (rs_threads s) i t) (rs_objs s) (rs_decls s) (rs_weak s) (rs_atomic s) (rs_region s).
+  mkRS (list_set (rs_threads s) i t) (rs_objs s) (rs_decls s) (rs_weak s) (rs_atomic s) (rs_region s) (rs_budget s) (rs_last s).
 Definition set_region (s : rstate) (r : option nat) : rstate :=
-  mkRS (rs_threads s) (rs_objs s) (rs_decls s) (rs_weak s) (rs_atomic s) r.
+  mkRS (rs_threads s) (rs_objs s) (rs_decls s) (rs_weak s) (rs_atomic s) r (rs_budget s) (rs_last s).
+Definition set_sched (s : rstate) (b : option nat) (l : option nat) : rstate :=
+  mkRS (rs_threads s) (rs_objs s) (rs_decls s) (rs_weak s) (rs_atomic s) (rs_region s) b l.
 
 Definition ro_with_val (o : robj) v := mkRO v (ro_owner o) (ro_readers o) (ro_waiters o) (ro_flag o) (ro_spur o) (ro_waiting o) (ro_q o) (ro_rx o) (ro_cnt o) (ro_slots o) (ro_live o) (if existsb (N.eqb v) (tl (ro_hist o)) then ro_hist o else ro_hist o ++ [v]).
 Definition ro_with_owner (o : robj) w := mkRO (ro_val o) w (ro_readers o) (ro_waiters o) (ro_flag o) (ro_spur o) (ro_waiting o) (ro_q o) (ro_rx o) (ro_cnt o) (ro_slots o) (ro_live o) (ro_hist o).
@@ -522,17 +526,31 @@ Definition final_outcome (s : rstate) : routcome :=
   OFinished (map (fun t => rev (r_log t)) (rs_threads s))
             (first_leak_from 0 (rs_decls s) (rs_objs s)).
 
-(* successors of [s] over all threads; [any_panic] is set if some enabled step panics *)
+(* a step of thread [t] is a preemption when the thread that made the previous step could go on *)
+Definition step_cost (s : rstate) (t : nat) : nat :=
+  match rs_last s with
+  | Some u => if Nat.eqb u t then 0
+              else match rstep s u with RDisabled => 0 | _ => 1 end
+  | None => 0
+  end.
+
+(* successors of [s] over all threads; [any_panic] is set if some enabled step panics.
+   With a preemption budget, steps that would exceed it are not taken. *)
 Fixpoint moves (s : rstate) (tids : list nat) : list rstate * bool :=
   match tids with
   | [] => ([], false)
   | t :: rest =>
       let '(l, p) := moves s rest in
-      match rstep s t with
-      | RDisabled => (l, p)
-      | RNext succ => (succ ++ l, p)
-      | RPanic => (l, true)
-      end
+      let cost := step_cost s t in
+      let afford := match rs_budget s with Some b => Nat.leb cost b | None => true end in
+      if negb afford then (l, p)
+      else
+        let b' := match rs_budget s with Some b => Some (b - cost) | None => None end in
+        match rstep s t with
+        | RDisabled => (l, p)
+        | RNext succ => (map (fun s' => set_sched s' b' (Some t)) succ ++ l, p)
+        | RPanic => (l, true)
+        end
   end.
 
 (* all outcomes reachable from [s] (with repetitions) *)
@@ -559,6 +577,12 @@ Definition ref_outcomes (weak : bool) (fuel : nat) (p : prog) : list routcome :=
 (* the interleavings in which every stop_exploring .. explore region runs as one block (SC atomics):
    what an exploration that fixes the decisions inside the regions but still explores every decision
    outside them must at least produce *)
+(* the interleavings with at most [preemption_bound (p_cfg p)] preemptions (SC atomics) *)
+Definition ref_outcomes_bounded (fuel : nat) (p : prog) : list routcome :=
+  let s := rinit false p in
+  renum fuel (mkRS (rs_threads s) (rs_objs s) (rs_decls s) false false None
+                   (preemption_bound (p_cfg p)) (Some 0)).
+
 Definition ref_outcomes_regions (fuel : nat) (p : prog) : list routcome :=
   let s := rinit false p in
-  renum fuel (mkRS (rs_threads s) (rs_objs s) (rs_decls s) false true None).
+  renum fuel (mkRS (rs_threads s) (rs_objs s) (rs_decls s) false true None None None).
